@@ -206,10 +206,20 @@ def check_direction(ctx, rep, rule='M-direction'):
             o, args_ok = cmp_branch(p, b)
             if o is None:
                 continue
-            node = final_local(b, p, 'node')
-            rec = final_local(b, p, var)
-            child = child_followed(node) if p.end == 'backedge' else None
-            recorded = rec is not None and strip_upd(rec)[0] == 'agg' and strip_upd(rec)[2] == 'Some'
+            # locals are identified by what they hold, not by their names
+            child = None
+            recorded = False
+            for k, v in p.final.mem.items():
+                if k[0][0] != 'loc' or k[1] != ():
+                    continue
+                c = child_followed(v)
+                if c and p.end == 'backedge':
+                    child = c
+                vv = strip_upd(v)
+                if vv[0] == 'agg' and vv[1] == 'adt' and vv[2] == 'Some' and vv[4] and strip_upd(vv[4][0])[0] == 'agg' and strip_upd(vv[4][0])[1] == 'tuple':
+                    s = show(noepoch(vv))
+                    if '.key' in s and '.value' in s:
+                        recorded = True
             # which child was inspected
             looked = None
             for (v, c) in p.conds:
